@@ -7,6 +7,7 @@ COQ_IMPORTS = ['Model.CFG', 'Model.Chomsky', 'Model.CYK', 'Judge.C07_judge']
 RULE = ('grammars over variables {S,A,B,..} and terminals {a,b}: all one-rule grammars and a seeded sample of two- and three-rule grammars from the right-hand sides of length <= 2 over {S,A,a,b}; '
         'random arbitrary grammars (epsilon, unit, cyclic, useless rules, rhs length <= 4) and random CNF grammars (<= 5 variables); each with all words of length <= 4 over {a,b} (incl. the empty word). '
         'Observed: CFG.is_chomsky, cfg_accepts_word for every word, every cell (i,j) of cfg_cyk_matrix for CNF grammars. Non-trivial = at least one word accepted and one rejected; distinct by grammar text.')
+RULE += ' Added after the seeded rounds: call sequences in one process (sibling grammar with the same rules and another start variable; start variable changed in place).'
 CODES = {2: 'cfg_accepts_word differs from the proved model', 3: 'a cell of cfg_cyk_matrix differs from the proved table', 4: 'CFG.is_chomsky differs', 9: 'generated grammar invalid (harness)'}
 ASSUMPTIONS = ['variable names and terminal names are disjoint strings (both parsers guarantee it: terminals are lower-case characters)', 'terminals are single characters']
 RESIDUE = 'str-subclass equality of Variable/Terminal; defaultdict P, X'
